@@ -48,7 +48,7 @@ func (c18) Rule() string {
 	return "k in 1..4 BAM inputs (some empty) built by the independent encoders, each sorted in the common declared order (coordinate = order of the merged reference list, computed by a small model and confirmed against Merger.Header()); headers with equal / disjoint / overlapping reference lists and lists whose name order differs from header order; all four sort orders plus a custom less; mates on other references; each input read through its own bam.Reader (rd 1..3) on its own simulated file with short reads; 1 in 4 runs makes one input fail at a drawn underlying read. Oracles: multiset equality by unique names, sortedness under the declared order, per-input order preserved, io.EOF only after all inputs ended cleanly (a fault must surface as a non-EOF error), Ref and MateRef of every returned record are elements of Merger.Header().Refs() with the source's name. non-trivial: k>=2, >=2 inputs non-empty and records of different inputs interleave in the output (or, with a fault, the fault fired mid-merge); distinct = (case, schedule signature)"
 }
 
-var c18RefPool = []RefSpec{{"chrB", 5000}, {"chrA", 7000}, {"chrD", 900}, {"chrC", 12000}, {"chrE", 300}}
+var c18RefPool = []RefSpec{{Name: "chrB", Len: 5000}, {Name: "chrA", Len: 7000}, {Name: "chrD", Len: 900}, {Name: "chrC", Len: 12000}, {Name: "chrE", Len: 300}}
 
 func (c18) Gen(t *Tape, tier string, run int) interface{} {
 	c := &c18Case{SO: []string{"unknown", "unsorted", "queryname", "coordinate", "coordinate"}[t.Draw("work", 5)], Chunk: t.Pick("work", 0, 2, 2), Procs: t.Pick("work", 1, 2, 3)}
@@ -64,7 +64,7 @@ func (c18) Gen(t *Tape, tier string, run int) interface{} {
 		case 0:
 			in.Refs = append([]RefSpec(nil), base...)
 		case 1:
-			in.Refs = []RefSpec{{fmt.Sprintf("only%d_%c", i, 'z'-byte(i)), 1000 + i}, {fmt.Sprintf("also%d", i), 2000}}
+			in.Refs = []RefSpec{{Name: fmt.Sprintf("only%d_%c", i, 'z'-byte(i)), Len: 1000 + i}, {Name: fmt.Sprintf("also%d", i), Len: 2000}}
 		case 2:
 			for _, r := range c18RefPool {
 				if t.Bool("work") {
@@ -95,7 +95,50 @@ func (c18) Gen(t *Tape, tier string, run int) interface{} {
 		}
 	}
 	c.IOQ = t.Pick("work", 0, 0, 1, 2, 3)
+	// further @SQ tags: 1 = every input describes a shared reference with
+	// the same tags, 2 = drawn per input (descriptions of a shared name may
+	// then conflict, which NewMerger may refuse)
+	switch t.Pick("work", 0, 0, 1, 1, 2) {
+	case 1:
+		perName := map[string]string{}
+		for i := range c.Inputs {
+			for j := range c.Inputs[i].Refs {
+				n := c.Inputs[i].Refs[j].Name
+				if _, ok := perName[n]; !ok {
+					perName[n] = ""
+					if t.Chance("work", 1, 2) {
+						perName[n] = genRefExtra(t)
+					}
+				}
+				c.Inputs[i].Refs[j].Extra = perName[n]
+			}
+		}
+	case 2:
+		for i := range c.Inputs {
+			for j := range c.Inputs[i].Refs {
+				if t.Chance("work", 1, 2) {
+					c.Inputs[i].Refs[j].Extra = genRefExtra(t)
+				}
+			}
+		}
+	}
 	return c
+}
+
+// conflictingRefs reports whether two inputs describe a reference of the same
+// name with different tags.
+func (c *c18Case) conflictingRefs() bool {
+	seen := map[string]string{}
+	for _, in := range c.Inputs {
+		for _, r := range in.Refs {
+			k := fmt.Sprintf("%d%s", r.Len, r.Extra)
+			if v, ok := seen[r.Name]; ok && v != k {
+				return true
+			}
+			seen[r.Name] = k
+		}
+	}
+	return false
 }
 
 // mergedRefOrder models the merged reference list: the first header's
@@ -295,6 +338,12 @@ func (p c18) Exec(x *Exec, ci interface{}) *Verdict {
 	if mergerErr != nil {
 		if fired {
 			x.Stats.Extra["fault_surfaced_in_NewMerger"]++
+			return vd
+		}
+		if c.conflictingRefs() {
+			// descriptions of one reference name disagree: refusing the
+			// merge is a legitimate answer
+			x.Stats.Extra["conflicting_reference_descriptions_refused"]++
 			return vd
 		}
 		vd.V = Mismatch("newmerger", "NewMerger = %v", mergerErr)
